@@ -1,6 +1,7 @@
 package harness
 
 import (
+	"math"
 	"time"
 
 	"github.com/platinummonkey/go-concurrency-limits/core"
@@ -473,7 +474,7 @@ func runC19(r *Run) {
 	sc := drawScen(r, scenOpts{
 		kinds: []string{"fixedpool", "pool"}, strategies: []string{"simple", "precise"},
 		maxClients: limit + backlog, arrivals: []time.Duration{0, 0, ms, 2 * ms}, holds: []time.Duration{0, ms, 2 * ms},
-		qTimeouts: []time.Duration{time.Second, time.Hour}, bTimeouts: []time.Duration{0, time.Second},
+		qTimeouts: []time.Duration{time.Second, time.Hour, time.Duration(math.MaxInt64)}, bTimeouts: []time.Duration{0, time.Second}, // (the largest duration: "wait for ever")
 		backlogs: []int{backlog}, limits: []int{limit},
 		relTimes: []time.Duration{0},
 	})
